@@ -168,6 +168,19 @@ def table8(chk: Check, tier: str, work):
             if ok and bad:
                 chk.violation(f"{key}:{rep}", f"{op} {rep} concrete={bad[0]} symbolic={bad[1]} (8 bits): specification {bad[2]}, halmos {bad[3]} ({bad[4]})", {"op": op, "concrete": bad[0], "symbolic": bad[1], "rep": rep, "size": 8})
             n += 256 * len(sub)
+        if op == "EXP":
+            # --smt-exp-by-const N: a symbolic base raised to a concrete exponent <= N is unrolled into multiplications
+            for N in (0, 1, 2, 3, 4, 6, 9):
+                for e in range(0, 10):
+                    res = apply_op(op, BV(p, size=8), BV(e, size=8), abs_=abs8, smt_exp_by_const=N)
+                    for b in sub:
+                        got = result_value(res, zeval.Evaluator({"p": b}))
+                        n += 1
+                        if got != rows2[(op, b)][e]:
+                            chk.violation(f"{key}:term-int:smt-exp-by-const-{N}", f"EXP(p, {e}) with --smt-exp-by-const {N} at p={b} (8 bits): specification {rows2[(op, b)][e]}, halmos term {res} evaluates to {got}",
+                                          {"op": op, "exponent": e, "base": b, "smt_exp_by_const": N, "size": 8, "term": str(res)})
+                            break
+            chk.nontrivial((op, 8, "smt-exp-by-const"))
             chk.nontrivial((op, 8, rep))
     for op in OPS1:
         for a in range(256):
